@@ -1,3 +1,5 @@
 #!/bin/bash
-# C11 uses the same contract file as C01
+# C11 uses the same contract file as C01, C05 the same as C04
 sed 's#^"""C01/C11 - merge is a homomorphism#"""C11 (same contracts as C01.py, kept in sync by tools/sync_c11.sh) - merge is a homomorphism#' /verif/contracts/C01.py > /verif/contracts/C11.py
+sed 's#^"""C04 / C05 - IteratorQueue#"""C05 (same contracts as C04.py, kept in sync by tools/sync_c11.sh) - IteratorQueue#' /verif/contracts/C04.py > /verif/contracts/C05.py
+cp /verif/replay/C04.py /verif/replay/C05.py
